@@ -32,6 +32,7 @@ FORWARD = {
     "splinetable_get_key": ("get_aux_value", ["key"], True),
     "splinetable_read_key": ("read_key", ["key", None], False),
     "splinetable_write_key": ("write_key", ["key", None], False),
+    "splinetable_init": ("splinetable", [], False),
     "readsplinefitstable": ("splinetable", ["path"], False),
     "writesplinefitstable": ("write_fits", ["path"], False),
     "readsplinefitstable_mem": ("read_fits_mem", ["buffer->data", "buffer->size"], False),
@@ -441,6 +442,19 @@ def cw5(P, C):
                     ok = False
                     detail += "; precision %s differs from the C++ default float" % cal["targs"][0]
             C.ob("CW-5", name, member, ok and tgt_ok, f.loc(i), detail)
+            if member == "splinetable":
+                # the table that is constructed is the one the handle holds afterwards: `table->data = new splinetable<>(...)`
+                p = f.parent[i]
+                while p >= 0 and f.k(p) in core.TRANSPARENT:
+                    p = f.parent[p]
+                isnew = p >= 0 and f.k(p) == "CXXNewExpr"
+                q = f.parent[p] if isnew else -1
+                while q >= 0 and f.k(q) in core.TRANSPARENT:
+                    q = f.parent[q]
+                stored = q >= 0 and f.k(q) == "BinaryOperator" and f.nodes[q].get("op") == "=" and \
+                    any(_is_table_data(f, x) for x in f.walk(f.nodes[q]["ch"][0])) and f._value_unused(q)
+                C.ob("CW-5", name, member + ":stored-in-handle", bool(isnew and stored), f.loc(i),
+                     "the constructed table is allocated with new and stored in table->data (new=%s, stored=%s)" % (isnew, stored))
             if fwd:
                 # the call's value is what is returned
                 p = f.parent[i]
